@@ -99,7 +99,9 @@ Fixpoint read_vbi (b : list N) (vbi mult : N) : res (N * list N) :=
       else
         let vbi' := N.lor vbi (shl32 (N.land d 127) mult) in
         if 268435455 <? vbi' then Err MALFORMED
-        else if N.land d 128 =? 0 then Ok (vbi', r)
+        else if N.land d 128 =? 0 then
+          (* minimum number of bytes [MQTT-1.5.5-1]: the last of several bytes is not zero *)
+          if (d =? 0) && negb (mult =? 0) then Err MALFORMED else Ok (vbi', r)
         else read_vbi r vbi' ((mult + 7) mod 4294967296)
   end.
 Definition read_varint (b : list N) : res (N * list N) := read_vbi b 0 0.
@@ -189,12 +191,16 @@ Fixpoint valid_topic_name_loop (fuel : nat) (must : bool) (p : list N) : res boo
       | p0 :: _ =>
           let '(ru, size) := decode_rune p in
           if must && (ru =? RUNE_ERROR) && (size <=? 1) then Ok false
+          else if ru =? 0 then Ok false                          (* [MQTT-4.7.3-2] *)
           else if (size =? 1) && ((p0 =? PLUS) || (p0 =? HASH)) then Ok false
           else do p' <- slice_from size p; valid_topic_name_loop k must p'
       end
   end.
 Definition valid_topic_name_impl (must : bool) (p : list N) : res bool :=
-  valid_topic_name_loop (S (length p)) must p.
+  match p with
+  | [] => Ok false                                               (* [MQTT-4.7.3-1] *)
+  | _ => valid_topic_name_loop (S (length p)) must p
+  end.
 
 (* ---- ValidTopicFilter ---- *)
 Fixpoint valid_topic_filter_loop (fuel : nat) (must : bool) (prev : option N) (p : list N) : res bool :=
@@ -207,6 +213,7 @@ Fixpoint valid_topic_filter_loop (fuel : nat) (must : bool) (prev : option N) (p
           let '(ru, size) := decode_rune p in
           let plen1 := is_empty t in                       (* plen == 1 *)
           if must && (ru =? RUNE_ERROR) && (size <=? 1) then Ok false
+          else if ru =? 0 then Ok false
           else if (p0 =? HASH) && negb plen1 then Ok false
           else
             do ok <-
@@ -241,6 +248,7 @@ Fixpoint v5_share_loop (fuel : nat) (subp : list N) : res bool :=
       | s0 :: _ =>
           let '(ru, size) := decode_rune subp in
           if (ru =? RUNE_ERROR) && (size <=? 1) then Ok false
+          else if ru =? 0 then Ok false
           else if (size =? 1) && (s0 =? SLASH) then
             do rest <- slice_from 1 subp; valid_topic_filter_impl true rest
           else if (size =? 1) && ((s0 =? PLUS) || (s0 =? HASH)) then Ok false
